@@ -458,6 +458,36 @@ InputStrict(input) ==
   LET p == ParseCS(input, FALSE, << <<LOWM>> >>) IN \A j \in DOMAIN p.seqs : StrictBody(p.seqs[j][2])
 
 ---------------------------------------------------------------------------
+\* assign_str(s): a longer text moves the end marker, a shorter one clips
+CPAssign(t, f, nt) ==
+  IF Len(nt) > Len(t) THEN << nt, MoveKey(f, Len(t), Len(nt)) >>
+  ELSE IF Len(nt) < Len(t) THEN << nt, CPGetItem(t, f, 0, Len(nt))[2] >>
+  ELSE << nt, f >>
+
+---------------------------------------------------------------------------
+\* find_settings(settings, start, end, reverse): the index-table algorithm; S = text ids searched for (by value).
+\* Result << found_start, found_end >> as optional integers (<< >> = None).
+CPFindSettings(t, f, S, start, end, reverse) ==
+  LET n == Len(t) st == SliceIdx(start, n, 0) en == SliceIdx(end, n, n) IN
+  IF en < st THEN << << >>, << >> >>
+  ELSE IF S = << >> THEN << <<st>>, <<en>> >>
+  ELSE
+    LET it == Iter(f)
+        inRange == SelectSeq(it, LAMBDA x : x[1] >= st /\ x[1] <= en)      \* ascending by index
+        HasAll(cur) == \A k \in DOMAIN S : \E q \in DOMAIN cur : cur[q][2] = S[k]
+        keys == {inRange[j][1] : j \in DOMAIN inRange}
+        CurAt(idx) == inRange[CHOOSE j \in DOMAIN inRange : inRange[j][1] = idx][2]
+        direct == st \notin keys /\ HasAll(SettingsAt(n, f, st))
+        matching == {k \in keys : HasAll(CurAt(k))}
+        fs == IF direct THEN <<st>>
+              ELSE IF matching = {} THEN << >>
+              ELSE IF reverse THEN <<CHOOSE k \in matching : \A q \in matching : q <= k>>
+              ELSE <<CHOOSE k \in matching : \A q \in matching : k <= q>>
+        later == IF fs = << >> THEN {} ELSE {k \in keys : k > fs[1] /\ ~HasAll(CurAt(k))}
+        fe == IF later = {} THEN << >> ELSE <<CHOOSE k \in later : \A q \in later : k <= q>>
+    IN <<fs, fe>>
+
+---------------------------------------------------------------------------
 (***************************************************************************)
 (* DRIFT detection on recorded events: the transcribed operator applied to *)
 (* the LOGGED pre-table must give the LOGGED post-table.  v.f is the raw   *)
@@ -522,6 +552,12 @@ DriftClauses(e, pre, post) ==
     [] e.op = "reparse" /\ HasResult(e) /\ NoEsc(v.t) /\ InputStrict(v.q) ->
          LET w == ResultOf(e, post) g == CPSetAnsiStr(v.q) IN
          Cl("drift.parse", f # EmptyTab, w.t = g[1] /\ SameTab(TabOf(w.f), g[2]))
+    [] e.op = "assign_str" /\ HasResult(e) ->
+         LET w == ResultOf(e, post) g == CPAssign(v.t, f, e.a.text) IN
+         Cl("drift.assign_str", f # EmptyTab, w.t = g[1] /\ SameTab(TabOf(w.f), g[2]))
+    [] e.op = "find_settings" /\ e.o.shape = 1 ->
+         Cl("drift.find_settings", f # EmptyTab,
+            <<e.o.fs, e.o.fe>> = CPFindSettings(v.t, f, e.a.S, e.a.start, e.a.end, e.a.reverse = 1))
     [] e.op = "copy" /\ HasResult(e) ->
          Cl("drift.copy", f # EmptyTab, TabOf(ResultOf(e, post).f) = f)
     [] OTHER -> None
